@@ -87,8 +87,14 @@ def move_archives(r, files):
                 defs[en[1]] = defs.get(en[1], 0) + 1
     groups = {}
     rest = []
+    # an archive moves as a whole, and only if every member qualifies (all its definitions are the only ones of their names)
+    ok_group = {}
+    for f in files:
+        if f["kind"] == "ar":
+            q = all(defs[en[1]] == 1 for en in f["entries"] if en[0] == "D")
+            ok_group[f["group"]] = ok_group.get(f["group"], True) and q
     for k, f in enumerate(files):
-        if f["kind"] == "ar" and all(defs[en[1]] == 1 for en in f["entries"] if en[0] == "D"):
+        if f["kind"] == "ar" and ok_group[f["group"]]:
             groups.setdefault(f["group"], []).append(k)
         else:
             rest.append([k])
@@ -112,7 +118,7 @@ def loaded_names(files, bits):
 
 def run(ctx):
     r = ctx.rng
-    n = 50 if ctx.quick else 1200
+    n = 50 if ctx.quick else 400
     reqs, impl, inputs = [], [], []
     ch = chunk_size()
     boundary = [ch, ch + 1, 2 * ch] if ctx.quick else [ch - 1, ch, ch + 1, 2 * ch - 1, 2 * ch, 2 * ch + 1, 3 * ch]
